@@ -78,11 +78,7 @@ func rulesC18(w *World, r *Report) {
 		ok := n == 1 && strings.Join(callArgExprs(w, c), ",") == `(whispertool.Timestamp).ToStdTime(p0),"2006-01-02T15:04:05Z"`
 		r.Check(ok, "C18.R1", "Timestamp.String", w.pos(ts.Pos()), "UTC time in the fixed layout", "Timestamp.String does not format ToStdTime() with the layout 2006-01-02T15:04:05Z")
 	}
-	if st := need(w, r, "C18.R1", w.Lib, "Timestamp.ToStdTime"); st != nil {
-		rets := returnsOf(st)
-		ok := len(rets) == 1 && newExprCtx(w).expr(rets[0].Results[0]) == "(time.Time).UTC(time.Unix(p0, 0))"
-		r.Check(ok, "C18.R1", "Timestamp.ToStdTime", w.pos(st.Pos()), "time.Unix(t,0).UTC()", "ToStdTime is not time.Unix(int64(t), 0).UTC(): times would be rendered in local time or shifted")
-	}
+	ruleToStdTimeUTC(w, r, "C18.R1")
 
 	r.Rule("C18.R2", "derives-from: PointsList.Print writes one line per point carrying (archive index, p.Time, p.Value) in that order, ranging over all archives and all points", 2)
 	if pr := need(w, r, "C18.R2", w.Cmd, "PointsList.Print"); pr != nil {
@@ -399,6 +395,7 @@ func rulesC19(w *World, r *Report) {
 			r.Check(isC && s == "2006-01-02T15:04:05Z", "C19.R2", funcName(f)+":layout", w.instrPos(c), "uses UTCTimeLayout", "a timestamp is printed/parsed with layout "+strconv.Quote(s)+" instead of 2006-01-02T15:04:05Z: printed timestamps no longer parse")
 		}
 	}
+	ruleToStdTimeUTC(w, r, "C19.R2")
 	if pt := need(w, r, "C19.R2", w.Lib, "ParseTimestamp"); pt != nil {
 		fcs := failConditions(w, pt)
 		ok := len(fcs) == 1 && strings.HasPrefix(fcs[0].Core(), "nil != time.Parse(") || len(fcs) == 1 && strings.Contains(fcs[0].Core(), "time.Parse(")
@@ -690,7 +687,8 @@ func rulesC20(w *World, r *Report) {
 	eachInstr(create, func(in ssa.Instruction) {
 		if st, ok := in.(*ssa.Store); ok {
 			if _, fname, ok := fieldAddrOf(st.Addr); ok && fname == "openFileFlag" {
-				if k, isK := constInt(st.Val); isK && k&0x40 != 0 && k&0x80 != 0 {
+				oc, oe := osConst(w, "O_CREATE"), osConst(w, "O_EXCL")
+				if k, isK := constInt(st.Val); isK && oc != 0 && oe != 0 && k&oc != 0 && k&oe != 0 {
 					okFlag = true
 				}
 			}
@@ -821,4 +819,28 @@ func rulesC20(w *World, r *Report) {
 		r.Check(tOK, "C20.R4", "randomPoints:times", w.pos(rp.Pos()), "times are offsets from the step-truncated until", "a generated time is not an offset from until.Truncate(step): "+tGot)
 	}
 	ruleC05R7(w, r, "C05.R7")
+}
+
+// osConst reads an integer constant of package os as configured for the analysed platform.
+func osConst(w *World, name string) int64 {
+	p := w.All["os"]
+	if p == nil || p.Types == nil {
+		return 0
+	}
+	o := p.Types.Scope().Lookup(name)
+	c, ok := o.(interface{ Val() constant.Value })
+	if !ok {
+		return 0
+	}
+	v, _ := constant.Int64Val(c.Val())
+	return v
+}
+
+// ruleToStdTimeUTC: shared by C18.R1 and C19.R2.
+func ruleToStdTimeUTC(w *World, r *Report, rule string) {
+	if st := need(w, r, rule, w.Lib, "Timestamp.ToStdTime"); st != nil {
+		rets := returnsOf(st)
+		ok := len(rets) == 1 && newExprCtx(w).expr(rets[0].Results[0]) == "(time.Time).UTC(time.Unix(p0, 0))"
+		r.Check(ok, rule, "Timestamp.ToStdTime", w.pos(st.Pos()), "time.Unix(t,0).UTC()", "ToStdTime is not time.Unix(int64(t), 0).UTC(): times would be rendered in local time although the layout's zone is the literal Z")
+	}
 }
